@@ -26,22 +26,44 @@ def runBudget : Node → List Step → Nat → Node × Option Nat
       | k' + 1 => runBudget (applyStep n s) ss k'
     else runBudget (applyStep n s) ss k
 
+/-- how a budgeted execution ended: all steps done (`left` more writes allowed), or cut in front of a write. A cut
+    is `bad` when it falls between the two writes of `AddValidatorAccount` — the account record is stored, the
+    wallet index that refers to it is not. -/
+inductive Cut where
+  | done (left : Nat)
+  | clean
+  | bad
+deriving DecidableEq, Repr
+
+def isBadCut (w : Wal) (s : Step) (k : Nat) : Bool :=
+  match s with
+  | .kmAdd key => !present w key && k == 1
+  | _ => false
+
+/-- a handler's step list under a write allowance (key-manager calls expanded one at a time, as in `runMacro`) -/
+def runMacroBudget : Node → List Step → Nat → Node × Cut
+  | n, [], k => (n, .done k)
+  | n, s :: ss, k =>
+    match runBudget n (expand n.wal s) k with
+    | (n', none) => (n', if isBadCut n.wal s k then .bad else .clean)
+    | (n', some k') => runMacroBudget n' ss k'
+
 /-- events of a block under a write allowance; the Bool reports a panic (which ends the block as well) -/
-def runEventsBudget (me blk : Nat) : Node → List Event → Nat → Node × Option Nat × Bool
-  | n, [], k => (n, some k, false)
+def runEventsBudget (me blk : Nat) : Node → List Event → Nat → Node × Cut × Bool
+  | n, [], k => (n, .done k, false)
   | n, e :: es, k =>
-    match runBudget n (eventSteps me blk n e) k with
-    | (n', none) => (n', none, false)
-    | (n', some k') =>
-      if (eventOutcome me blk n e).isPanic then (n', some k', true)
+    match runMacroBudget n (regSteps me blk (viewOf n.reg) e).1 k with
+    | (n', .done k') =>
+      if (eventOutcome me blk n e).isPanic then (n', .done k', true)
       else runEventsBudget me blk n' es k'
+    | (n', c) => (n', c, false)
 
 inductive FaultKind where
   | crash | error | retry
 deriving DecidableEq, Repr
 
 inductive FaultStatus where
-  | faulted | completed | refused | panicked
+  | faulted | faultedBad | completed | refused | panicked
 deriving DecidableEq, Repr
 
 /-- what is left after the fault: the transaction is gone; crash/error: a new process on the surviving database -/
@@ -50,14 +72,16 @@ def afterFault (me : Nat) (kind : FaultKind) (n : Node) : Node :=
   | .retry => beginTxn n
   | _ => restart me n
 
-/-- processBlockEvents with a fault at write index `k` (no fault if the block has at most k writes) -/
+/-- processBlockEvents with a fault at write index `k` (no fault if the block has at most k writes);
+    `faultedBad` = the fault fell between the account record and the wallet index of an `AddShare` -/
 def faultBlock (me : Nat) (n : Node) (b : Block) (kind : FaultKind) (k : Nat) : Node × FaultStatus :=
   if inferior n b then (n, .refused)
   else
     match runEventsBudget me b.number (beginTxn n) b.events k with
-    | (n1, none, _) => (afterFault me kind n1, .faulted)
-    | (n1, some _, true) => (beginTxn n1, .panicked)
-    | (n1, some k1, false) =>
+    | (n1, .clean, _) => (afterFault me kind n1, .faulted)
+    | (n1, .bad, _) => (afterFault me kind n1, .faultedBad)
+    | (n1, .done _, true) => (beginTxn n1, .panicked)
+    | (n1, .done k1, false) =>
       match runBudget n1 [.putMarker b.number, .commit] k1 with
       | (n2, none) => (afterFault me kind n2, .faulted)
       | (n2, some _) => (n2, .completed)
@@ -93,6 +117,7 @@ def faultKind? (s : String) : Option FaultKind :=
   if s = "crash" then some .crash else if s = "error" then some .error else if s = "retry" then some .retry else none
 
 def faultStatusS : FaultStatus → String
-  | .faulted => "faulted" | .completed => "completed" | .refused => "refused" | .panicked => "panic"
+  | .faulted => "faulted" | .faultedBad => "faulted" | .completed => "completed" | .refused => "refused"
+  | .panicked => "panic"
 
 end Ssv.Registry
